@@ -51,6 +51,11 @@ from fpy2.interpret.value import from_value, to_value
 
 EXPR, DEF, CALL = 0, 1, 2
 
+
+class TraceOverflow(RuntimeError):
+    """the execution produced more events than `TracingInterpreter.max_events`"""
+
+
 HOOK_TRACE = '__vf_trace'
 HOOK_DEF = '__vf_def'
 HOOK_ITER = '__vf_iter'
@@ -218,29 +223,44 @@ class Activation:
 class TracingInterpreter(BytecodeInterpreter):
     """BytecodeInterpreter whose `eval` records an `Activation` per call."""
 
-    def __init__(self, ctx=None):
+    def __init__(self, ctx=None, max_events: int = 20000, max_len: int = 512):
         super().__init__(ctx=ctx)
         self.codes: dict[FuncDef, TracedCode] = {}
         self._stack: list[Activation] = []
         self._cur: list | None = None
         self.roots: list[Activation] = []
         self.keep_roots = False
+        self.max_events = max_events
+        self.max_len = max_len
+        self._budget = max_events
+
+        def snap(v):
+            # bound memory: a runaway program (a list whose length squares per
+            # iteration, a loop that never ends) is cut off, not recorded
+            self._budget -= 1
+            if self._budget < 0:
+                raise TraceOverflow(f'more than {self.max_events} events')
+            if isinstance(v, (list, tuple)):
+                if len(v) > self.max_len:
+                    raise TraceOverflow(f'container of length {len(v)}')
+                return snapshot(v)
+            return v
 
         def h_trace(k, v):
-            self._cur.append((EXPR, k, v, snapshot(v) if isinstance(v, (list, tuple)) else v))
+            self._cur.append((EXPR, k, v, snap(v)))
             return v
 
         def h_def(s, v):
-            self._cur.append((DEF, s, v, snapshot(v) if isinstance(v, (list, tuple)) else v))
+            self._cur.append((DEF, s, v, snap(v)))
             return v
 
         def h_iter(s, iterable):
             for v in iterable:
-                self._cur.append((DEF, s, v, snapshot(v) if isinstance(v, (list, tuple)) else v))
+                self._cur.append((DEF, s, v, snap(v)))
                 yield v
 
         def h_idef(s, v):
-            self._cur.append((DEF, s, v, snapshot(v)))
+            self._cur.append((DEF, s, v, snap(v)))
 
         self._hooks = {HOOK_TRACE: h_trace, HOOK_DEF: h_def, HOOK_ITER: h_iter, HOOK_IDEF: h_idef}
 
@@ -305,6 +325,7 @@ class TracingInterpreter(BytecodeInterpreter):
         raised by the program is kept in `.error` (returned is False)."""
         assert not self._stack
         self._last = None
+        self._budget = self.max_events
         try:
             self.eval(func, args, ctx)
         except Exception:  # noqa: BLE001 -- the program raising is an observation
